@@ -17,9 +17,10 @@ T = ["struct", "test", [["a", G.U8, None], ["arr", G.arr(G.U16, 2), None], ["s",
                         ["n", G.U8, None], ["d", G.arr(G.U8, ["expr", ["bin", "&", ["id", "n"], ["num", 1]]]), None]], False]
 OTHER_TEXT = "struct inner { uint32 x; }; struct test { uint64 a; uint8 arr[3]; inner s; }; typedef uint8 myt;"
 
+PKT_TEXT = "union pkt { uint8 tag; uint16 word; char raw[4]; };"
 DIV_TEXT = "struct div { uint8 total; uint8 count; uint8 data[2 + (total & 3) / count]; uint8 t; };"
 
-OPS = ["failing-evaluation", "default.arr[i]=v", "default.s.x=v", "default.a=v", "default.c=v", "kw.arr[i]=v", "parsed.arr[i]=v", "parsed.s.y=v", "parse-other",
+OPS = ["union-dump", "failing-evaluation", "default.arr[i]=v", "default.s.x=v", "default.a=v", "default.c=v", "kw.arr[i]=v", "parsed.arr[i]=v", "parsed.s.y=v", "parse-other",
        "failing-parse", "dump", "second-cstruct", "reparse-odd-n"]
 
 
@@ -32,6 +33,7 @@ def make(case):
         from dissect.cstruct import cstruct
         cs, cls = H.load(T, cfg)
         cs.load(DIV_TEXT, compiled=cfg["compiled"], align=cfg["align"])
+        cs.load(PKT_TEXT, compiled=cfg["compiled"], align=cfg["align"])
         n = 24
         w0 = ctx.bytes("w0", n)
         keep_default = cls()
@@ -43,7 +45,10 @@ def make(case):
             v = ctx.int(f"v{i}", 1, 0xFFFF)
             name = OPS[op]
             try:
-                if name == "failing-evaluation":
+                if name == "union-dump":
+                    cs.pkt(b"\x01\x02\x03\x04").dumps()
+                    bytes(cs.pkt(word=7))
+                elif name == "failing-evaluation":
                     # an array length whose evaluation fails half way (division by zero), then a good one
                     try:
                         cs.div.read(ctx.stream(bytes([7, 0, 1, 2, 3, 4, 5, 6])))
@@ -118,6 +123,13 @@ def make(case):
         ref0 = H.ref_parser(ctx, cfg)
         rv0, _ = ref0.parse(T, w0, 0)
         ctx.check("instance parsed before the history is unchanged", R.value_eq(T, keep_parsed, rv0))
+        pv = ctx.int("pv", 0, 255)
+        try:
+            pk = cs.pkt(pv)                  # first positional value = first declared member
+            ctx.check("union built from a positional value after the history: first declared member gets it", R.And(pk.tag == pv, (pk.word & 0xFF) == pv if cfg["endian"] == "<" else True))
+            ctx.check("union member order after the history is the declared one", [f._name for f in cs.pkt.__fields__] == ["tag", "word", "raw"])
+        except Exception as e:  # noqa: BLE001
+            ctx.check("positional union construction after the history works", False, H.classify(e))
         dz = ctx.bytes("dz", 1) + bytes([2]) + ctx.bytes("dr", 6)
         try:
             dv = cs.div.read(ctx.stream(dz))
